@@ -9,11 +9,11 @@ One == {NoneV}
 Ext_SetupPlan == << [op |-> "new", tape |-> 1],
                   [op |-> "withkey", tape |-> 2, key |-> 1, mode |-> "ext"],
                   [op |-> "parts", seed |-> 1, key |-> 1, fake |-> 1, mode |-> "ext"] >>
-Ext_RegPlan == << Plan(1, 11, 3, NoneV, NoneV, 0), Plan(2, 12, 2, NoneV, NoneV, 0) >>
-Ext_CliPw   == [c \in CliIds |-> IF c = 2 THEN <<A(2), A(2)>> ELSE <<A(1), A(1)>>]
+Ext_RegPlan == << Plan(1, 11, 3, NoneV, NoneV, 0) >>
+Ext_CliPw   == [c \in CliIds |-> <<A(1), A(1)>>]
 Ext_SrvSetups == {1, 2, 3}
-Ext_SrvRecs == {0, 1, 2}
-Ext_SrvCids == {A(11), A(12)}
+Ext_SrvRecs == {0, 1}
+Ext_SrvCids == {A(11)}
 Ext_RegIdus == One
 Ext_RegIdss == One
 Ext_RegKsfs == {0}
